@@ -221,8 +221,9 @@ static inline int readline_putchar(struct readline *rl, char c)
             break;
 
         default:
-            sline_putchar(&rl->line, c);
-            retcode = READLINE_ECHOCHAR;
+            // Символ, не поместившийся в строку, не должен отображаться.
+            ret = sline_putchar(&rl->line, c);
+            retcode = ret ? READLINE_ECHOCHAR : READLINE_OVERFLOW;
             break;
         }
         break;
